@@ -29,6 +29,7 @@ F32_EXP_MAX = 88.72          # torch.exp overflows binary32 above 88.7228...
 TOL_SPEC = {"float64": 1e-6, "float32": 1e-3}
 SIG_CLAMP = "C19.relaxed.csample_clamped_probs"
 SIG_STNAN = "C19.straight_through.nan_at_neg_inf_logit"
+SIG_LOGSHAPE = "C19.direct.is_log_leading_axis"
 
 
 def _dy(rng, lo, hi, den):
@@ -626,23 +627,36 @@ class C19(PropertyCheck):
             while fam.n_points(sd) != fam.n_points(sp) or sd["fam"] != sp["fam"]:
                 sd = _family(rng, which)
             return sd
-        for _ in range(1 if not big else 6):
+        for _ in range(2 if not big else 8):
             for which in FLOAT_FAMS:
                 for layout in (("event", "batch") if which.startswith("bern") else ("event",)):
                     for N in (1, 2):
                         sp = _family(rng, which, edge=rng.random() < 0.15)
                         cvmode = rng.choice(["none", "cv", "cv_detached"])
                         case = {"kind": "direct", "dist": sp, "layout": layout, "N": N, "fp": spelled(sp, layout),
-                                "f": None, "c": None, "cv_mean_detached": cvmode == "cv_detached"}
+                                "f": None, "c": None, "cv_mean_detached": cvmode == "cv_detached",
+                                "sample_owned": rng.random() < 0.5}
                         if cvmode != "none":
                             if rng.random() < 0.6:
                                 case["cp"] = spelled(sp, layout)
                             else:
                                 case["c"] = btables(sp) if layout == "batch" else _table(rng, fam.n_points(sp))
+                        elif rng.random() < 0.4:
+                            # the option is_log=True (func = log f): values against a python oracle, and the
+                            # same spelling-independence
+                            case["is_log"] = True
                         yield case
                         sp = _family(rng, which)
                         yield {"kind": "is", "proposal": sp, "layout": layout, "N": N, "fp": spelled(sp, layout),
-                               "density": rng.choice(["same", same_shape(which, sp)]), "f": None}
+                               "density": rng.choice(["same", same_shape(which, sp)]), "f": None,
+                               "sample_owned": rng.random() < 0.5, "is_log": rng.random() < 0.25}
+                        if layout == "event" and N == 1:    # integrand = views of a table it keeps
+                            sp = _family(rng, which)
+                            M = fam.n_points(sp)
+                            yield {"kind": "direct", "dist": sp, "N": 1, "f": _table(rng, M), "f_kept": True,
+                                   "c": rng.choice([None, _table(rng, M)]), "cv_mean_detached": False}
+                            yield {"kind": "is", "proposal": sp, "N": 1, "f": _table(rng, M), "f_kept": True,
+                                   "density": rng.choice(["same", same_shape(which, sp)])}
                         if layout == "batch":       # the layout with ordinary tables
                             sp = _family(rng, which)
                             cvmode = rng.choice(["none", "cv", "cv_detached"])
@@ -652,13 +666,13 @@ class C19(PropertyCheck):
                             yield {"kind": "is", "proposal": sp, "layout": layout, "N": N, "f": btables(sp),
                                    "density": rng.choice(["same", same_shape(which, sp)])}
                 sp = _family(rng, which)
-                yield {"kind": "enumerate", "dist": sp, "f": None,
+                yield {"kind": "enumerate", "dist": sp, "f": None, "is_log": rng.random() < 0.3,
                        "fp": spelled(sp, "batch" if which.startswith("bern") else "event")}
                 if which in ("bern2", "bern3"):
                     yield {"kind": "enumerate", "dist": sp, "f": btables(sp)}
         # IMH: mc_samples - burn_in in {1, 2, 3} (the recorded values f(b_t) of EARLIER kept states must
         # survive the later steps), drawn and supplied starting points (both documented shapes)
-        for i in range(72 if not big else 720):
+        for i in range(120 if not big else 900):
             which = rng.choice(FLOAT_FAMS)
             layout = rng.choice(["event", "batch"]) if which.startswith("bern") else "event"
             sp = _family(rng, which, edge=rng.random() < 0.15)
@@ -669,13 +683,16 @@ class C19(PropertyCheck):
             case = {"kind": "imh", "proposal": sp, "layout": layout, "N": N, "burn_in": burn,
                     "density": "same" if rng.random() < 0.7 else same_shape(which, sp),
                     "init": rng.choice([None, rng.randrange(M)]), "init_lead": rng.random() < 0.5,
-                    "draws": [rng.randrange(M) for _ in range(N + 1)], "f": None}
+                    "draws": [rng.randrange(M) for _ in range(N + 1)], "f": None,
+                    "sample_owned": rng.random() < 0.5, "is_log": rng.random() < 0.25}
             if layout == "batch":
                 case["us"] = [[fs(rng.choice(us)) for _ in sp["theta"]] for _ in range(N)]
             else:
                 case["us"] = [fs(rng.choice(us)) for _ in range(N)]
             if i % 6 == 5:
                 case["f"] = btables(sp) if layout == "batch" else _table(rng, M)
+                if layout == "event":       # the integrand returns views of a table it keeps
+                    case["f_kept"] = True
             else:
                 case["fp"] = spelled(sp, layout)
             yield case
@@ -702,7 +719,7 @@ class C19(PropertyCheck):
             if r != 0:
                 case["cp"] = sq.next(None)
             yield case
-        for i in range(24 if not big else 200):
+        for i in range(36 if not big else 240):
             N = rng.choice([1, 2, 3])
 
             def draw2():
@@ -786,11 +803,55 @@ class C19(PropertyCheck):
         t = self._tables(case, sp, key)
         if t is None:
             return None
+        if case.get(key + "_kept") and not twin and not self._batch(case):
+            # a table function whose single-sample results are views of a table it keeps
+            return fam.table_view_func(sp, t, self._kept)
         return fam.batch_table_func(t) if self._batch(case) else fam.table_func(sp, t)
+
+    _kept = []
+
+    def _kept_reset(self):
+        self._kept = []
+
+    def _kept_ok(self):
+        import torch
+        return all(torch.equal(a, b) for a, b in self._kept)
+
+    @staticmethod
+    def _lme(vals, logw=None):
+        """log of the (weighted) mean of exp: the is_log=True reading of an average.  vals: exact values
+        of log f; logw: log-weights (sum instead of mean)"""
+        xs = [float(F(v)) + (0.0 if logw is None else w) for v, w in zip(vals, logw or vals)]
+        m = max(xs)
+        tot = sum(math.exp(x - m) for x in xs)
+        return m + math.log(tot if logw is not None else tot / len(xs))
+
+    @staticmethod
+    def _lclose(a, b):
+        return a not in SPECIALS and abs(float(F(a)) - b) <= 1e-9 * max(1.0, abs(b))
+
+    @staticmethod
+    def _pred_untouched(name, impl):
+        """tensors that belong to somebody else (what proposal.sample handed out and keeps) are inputs;
+        and the estimate has the batch shape of the proposal"""
+        out = []
+        sh = impl.get("shapes")
+        if sh and sh["seen"] != [sh["want"]]:
+            # the specific defect behind finding C19.direct.is_log_leading_axis: DirectEstimator(is_log=True)
+            # adds `fb_lmax` (kept with keepdim=True) and returns (1,) + batch_shape
+            known = name == "DirectEstimator(is_log=True)" and sh["seen"] == [[1] + sh["want"]]
+            out.append((f"{name} returns an estimate of shape {sh['seen']}, the proposal's batch shape is "
+                        f"{sh['want']}", SIG_LOGSHAPE if known else None))
+        if not impl.get("samples_untouched", True):
+            out.append((f"{name} wrote into a tensor that proposal.sample returned (the proposal keeps it)", None))
+        if not impl.get("tables_untouched", True):
+            out.append((f"{name} wrote into the tensor its integrand returned (a view of a table the integrand "
+                        f"keeps): the table changed", None))
+        return out
 
     @staticmethod
     def _has_twin(case):
-        return any(alias.twin(case.get(k)) is not None for k in ("fp", "cp"))
+        return any(alias.twin(case.get(k)) is not None for k in ("fp", "cp")) or bool(case.get("f_kept"))
 
     @staticmethod
     def _alias_obs(case, logs):
@@ -808,15 +869,25 @@ class C19(PropertyCheck):
                  f"{fam_short(a)} vs fresh {fam_short(b)}", None)]
 
     # ---------------------------------------------------------------- estimators: common
-    def _run_tuples(self, dist, params, pts, N, make_est, vec=False):
+    def _run_tuples(self, dist, params, pts, N, make_est, vec=False, owned=False):
         """call the estimator once per tuple of Omega^N with proposal.sample replaced.  vec: the result is
-        a vector (batch layout): per tuple a list over its elements of [value, gradient]"""
+        a vector (batch layout): per tuple a list over its elements of [value, gradient].  owned: the
+        proposal hands out a tensor it KEEPS (no copy); `self._untouched` says whether it was left alone"""
         import torch
         out = []
+        self._untouched = True
+        want = [pts[0].numel()] if vec else []
+        self._shapes = {"want": want, "seen": []}
         for t in fam.tuples(len(pts), N):
             b = torch.stack([pts[i] for i in t])
-            with fam.patched(dist, sample=lambda shape=(), _b=b: _b.clone()):
+            with fam.patched(dist, sample=lambda shape=(), _b=b: _b if owned else _b.clone()):
                 v = make_est()()
+            if not torch.equal(b, torch.stack([pts[i] for i in t])):
+                self._untouched = False
+            if list(v.shape) not in self._shapes["seen"]:
+                self._shapes["seen"].append(list(v.shape))
+            if list(v.shape) == [1] + want:
+                v = v.squeeze(0)        # an extra leading axis: go on with the values, the predicate reports it
 
             def one(x):
                 gs = torch.autograd.grad(x, params, allow_unused=True, retain_graph=True)
@@ -824,9 +895,9 @@ class C19(PropertyCheck):
                 for g, p in zip(gs, params):
                     flat += [0.0] * p.numel() if g is None else g.reshape(-1).tolist()
                 return [fs(x.item()), [fs(y) for y in flat]]
+            if list(v.shape) != want:
+                raise ValueError(f"estimate of shape {list(v.shape)} for batch shape {want}")
             if vec:
-                if list(v.shape) != [pts[0].numel()]:
-                    raise ValueError(f"estimate of shape {list(v.shape)} for batch shape {[pts[0].numel()]}")
                 out.append([one(v[j]) for j in range(v.numel())])
             else:
                 out.append(one(v))
@@ -934,20 +1005,48 @@ class C19(PropertyCheck):
         # the sample space is the support: a class of probability zero (logit -inf) is never drawn
         spts = [pts[i] for i in fam.support(sp)]
         logs = {"f": [], "c": []}
+        self._kept_reset()
 
         def run(twin):
             func = self._callback(case, sp, "f", twin, logs["f"])
             cv = self._callback(case, sp, "c", twin, logs["c"])
             return self._run_tuples(dist, [param], spts, case["N"],
-                                    lambda: DirectEstimator(dist, func, case["N"], cv, cv_mean), vec=batch)
+                                    lambda: DirectEstimator(dist, func, case["N"], cv, cv_mean,
+                                                            bool(case.get("is_log"))), vec=batch,
+                                    owned=bool(case.get("sample_owned")))
         per = run(False)
+        untouched, shapes = self._untouched, self._shapes
         lps = dist.log_prob(torch.stack(pts)).detach()
         if batch:
             psum = [fs(x) for x in (lps[0].exp() + lps[-1].exp()).tolist()]
         else:
             psum = fs(lps.exp().sum().item())
         return {"per_tuple": per, "psum": psum, "aliased": self._alias_obs(case, logs),
+                "samples_untouched": untouched, "tables_untouched": self._kept_ok(), "shapes": shapes,
                 "twin": run(True) if self._has_twin(case) else None}
+
+    def _pred_log_tuples(self, name, case, sp, per, logw):
+        """is_log=True (func = log f; no control variate): on every tuple the returned value is the log of
+        what the is_log=False estimator returns for f = exp(func): log mean_n exp(func(b_n)) for the direct
+        estimator, log sum_n exp(func(b_n) + logw(b_n)) / N for importance sampling (logw = log P - log Q)"""
+        ft = self._tables(case, sp, "f")
+        sup = fam.support(sp)
+        fails = []
+        for ti, t in enumerate(fam.tuples(len(sup), case["N"])):
+            pts = [sup[i] for i in t]
+            if self._batch(case):
+                rows = [[ft[j][(i >> j) & 1] for i in pts] for j in range(len(ft))]
+                got = [x[0] for x in per[ti]]
+                lws = [None if logw is None else [logw[j][(i >> j) & 1] for i in pts] for j in range(len(ft))]
+            else:
+                rows, got = [[ft[i] for i in pts]], [per[ti][0]]
+                lws = [None if logw is None else [logw[i] for i in pts]]
+            for j, (vals, g, lw) in enumerate(zip(rows, got, lws)):
+                want = self._lme(vals, lw) - (math.log(case["N"]) if lw is not None else 0.0)
+                if not self._lclose(g, want):
+                    fails.append((f"{name}(is_log=True): tuple {t} element {j}: {g} is not the log of the "
+                                  f"is_log=False estimate of exp(func) = {want!r}", None))
+        return fails[:4]
 
     def _elem_cases(self, case, key="dist"):
         """batch layout: the one-variable event-layout case of every element"""
@@ -965,6 +1064,8 @@ class C19(PropertyCheck):
 
     def _req_direct(self, case):
         import torch
+        if case.get("is_log"):
+            return None         # is_log=True is not modelled: python oracle in the predicate (values only)
         if self._batch(case):
             return {"op": "c19.multi", "case": {"reqs": [self._req_direct(c) for c in self._elem_cases(case)]}}
         sp = case["dist"]
@@ -993,6 +1094,10 @@ class C19(PropertyCheck):
         P, _ = fam.exact_probs(case["dist"])
         P = [P[i] for i in fam.support(case["dist"])]
         fails = self._pred_twin("DirectEstimator", case, impl["per_tuple"], impl["twin"])
+        fails += self._pred_untouched("DirectEstimator(is_log=True)" if case.get("is_log") else "DirectEstimator",
+                                      impl)
+        if case.get("is_log"):
+            return fails + self._pred_log_tuples("DirectEstimator", case, case["dist"], impl["per_tuple"], None)
         has_cv = self._tables(case, case["dist"], "c") is not None
         for x in (impl["psum"] if isinstance(impl["psum"], list) else [impl["psum"]]):
             if not close(x, 1):
@@ -1035,13 +1140,17 @@ class C19(PropertyCheck):
             params = [pparam, qparam]
         pts = [pts[i] for i in fam.support(sp)]        # the proposal's support
         logs = {"f": []}
+        self._kept_reset()
 
         def run(twin):
             func = self._callback(case, sp, "f", twin, logs["f"])
             return self._run_tuples(dist, params, pts, case["N"],
-                                    lambda: ImportanceSamplingEstimator(dist, func, case["N"], dens), vec=batch)
+                                    lambda: ImportanceSamplingEstimator(dist, func, case["N"], dens, False,
+                                                                        bool(case.get("is_log"))), vec=batch,
+                                    owned=bool(case.get("sample_owned")))
         per = run(False)
-        return {"per_tuple": per, "aliased": self._alias_obs(case, logs),
+        return {"per_tuple": per, "aliased": self._alias_obs(case, logs), "samples_untouched": self._untouched,
+                "tables_untouched": self._kept_ok(), "shapes": self._shapes,
                 "twin": run(True) if self._has_twin(case) else None}
 
     def _is_elem_cases(self, case):
@@ -1053,6 +1162,8 @@ class C19(PropertyCheck):
                 for j in range(len(sp["theta"]))]
 
     def _req_is(self, case):
+        if case.get("is_log"):
+            return None
         if self._batch(case):
             return {"op": "c19.multi", "case": {"reqs": [self._req_is(c) for c in self._is_elem_cases(case)]}}
         sp = case["proposal"]
@@ -1100,6 +1211,19 @@ class C19(PropertyCheck):
         Q, _ = fam.exact_probs(case["proposal"])
         Q = [Q[i] for i in fam.support(case["proposal"])]
         fails = self._pred_twin("ImportanceSamplingEstimator", case, impl["per_tuple"], impl["twin"])
+        fails += self._pred_untouched("ImportanceSamplingEstimator", impl)
+        if case.get("is_log"):
+            import torch
+            lay = case.get("layout", "event")
+            dq, _, pts = fam.build(case["proposal"], False, layout=lay)
+            dp = dq if case["density"] == "same" else fam.build(case["density"], False, layout=lay)[0]
+            if self._batch(case):
+                lw = (dp.log_prob(torch.stack([pts[0], pts[-1]])) - dq.log_prob(torch.stack([pts[0], pts[-1]]))
+                      ).t().tolist()
+            else:
+                lw = (dp.log_prob(torch.stack(pts)) - dq.log_prob(torch.stack(pts))).tolist()
+            return fails + self._pred_log_tuples("ImportanceSamplingEstimator", case, case["proposal"],
+                                                 impl["per_tuple"], lw)
         if self._batch(case):
             a, extra = self._is_batch_split(case, impl["per_tuple"])
             fails += self._pred_batch("ImportanceSamplingEstimator (batch of independent variables)", a, Q,
@@ -1140,7 +1264,8 @@ class C19(PropertyCheck):
             dist, param, pts = fam.build(sp, layout="batch")
 
             def run(twin):
-                v = EnumerateEstimator(dist, self._callback(bc, sp, "f", twin, logs["f"]))()
+                v = EnumerateEstimator(dist, self._callback(bc, sp, "f", twin, logs["f"]),
+                                       bool(case.get("is_log")))()
                 if list(v.shape) != [len(sp["theta"])]:
                     raise ValueError(f"estimate of shape {list(v.shape)} for batch shape {[len(sp['theta'])]}")
                 out = []
@@ -1157,7 +1282,8 @@ class C19(PropertyCheck):
         dist, param, pts = fam.build(sp)
 
         def run(twin):
-            v = EnumerateEstimator(dist, self._callback(case, sp, "f", twin, logs["f"]))().sum()
+            v = EnumerateEstimator(dist, self._callback(case, sp, "f", twin, logs["f"]),
+                                   bool(case.get("is_log")))().sum()
             g, = torch.autograd.grad(v, [param], retain_graph=True)
             return [fs(v.item()), [fs(x) for x in g.reshape(-1).tolist()]]
         sup = dist.enumerate_support()
@@ -1167,6 +1293,8 @@ class C19(PropertyCheck):
 
     def _req_enumerate(self, case):
         sp = case["dist"]
+        if case.get("is_log"):
+            return None
         if sp["fam"] == "bern":
             ft = self._tables(dict(case, layout="batch"), sp, "f")
             if len(sp["theta"]) == 1 and len(ft) == 2 and not isinstance(ft[0], list):
@@ -1198,6 +1326,25 @@ class C19(PropertyCheck):
 
     def _pred_enumerate(self, case, impl, model):
         fails = self._pred_twin("EnumerateEstimator", case, impl["v"], impl["twin"])
+        if case.get("is_log"):
+            # is_log=True: log sum_b P(b) exp(func(b)), exactly (value only)
+            sp = case["dist"]
+            if sp["fam"] == "bern":
+                ft = self._tables(dict(case, layout="batch"), sp, "f")
+                for j, row in enumerate(ft):
+                    P, _ = fam.exact_probs(fam.element(sp, j))
+                    want = math.log(sum(float(p) * math.exp(float(F(x))) for p, x in zip(P, row)))
+                    if not self._lclose(impl["v"][j][0], want):
+                        fails.append((f"EnumerateEstimator(is_log=True) element {j}: {impl['v'][j][0]} != "
+                                      f"log E exp(func) = {want!r}", None))
+            else:
+                P, _ = fam.exact_probs(sp)
+                want = math.log(sum(float(p) * math.exp(float(F(x))) for p, x in
+                                    zip(P, self._tables(case, sp, "f"))))
+                if not self._lclose(impl["v"][0], want):
+                    fails.append((f"EnumerateEstimator(is_log=True): {impl['v'][0]} != log E exp(func) = {want!r}",
+                                  None))
+            return fails
         fails += [(m, None) for tag, a, b in self._enum_rows(case, impl, model, "exact")
                   for m in self._cmp_multi(f"EnumerateEstimator vs exact expectation ({tag})", a, b)]
         if case["dist"]["fam"] == "bern":
@@ -1277,16 +1424,19 @@ class C19(PropertyCheck):
         us = torch.tensor([[float(F(x)) for x in r] for r in case["us"]] if batch
                           else [float(F(x)) for x in case["us"]], dtype=torch.float64)
         logs = {"f": []}
+        owned = bool(case.get("sample_owned"))
+        self._kept_reset()
 
         def run(twin):
             func = self._callback(case, sp, "f", twin, logs["f"])
             draws = list(case["draws"])
             taken, asked = [], []
+            pool = torch.stack(pts).clone()       # owned: the proposal hands out views of a pool it keeps
 
             def sample(shape=()):
                 i = draws.pop(0)
                 taken.append(i)
-                return pts[i].unsqueeze(0).clone()
+                return pool[i].unsqueeze(0) if owned else pts[i].unsqueeze(0).clone()
 
             def rand(*a, **k):
                 asked.append([int(x) for x in (a[0] if len(a) == 1 and not isinstance(a[0], int) else a)])
@@ -1298,15 +1448,17 @@ class C19(PropertyCheck):
                     init = init.unsqueeze(0).clone()
                 keep = init.clone()
             with fam.patched(dist, sample=sample), fam.torch_patched(rand=rand):
-                est = IMH(dist, func, case["N"], dens, case["burn_in"], init, 3)
+                est = IMH(dist, func, case["N"], dens, case["burn_in"], init, 3, bool(case.get("is_log")))
                 v = est()
             want = [len(sp["theta"])] if batch else []
             if list(v.shape) != want:
                 raise ValueError(f"estimate of shape {list(v.shape)}, expected {want}")
             return {"v": [fs(x) for x in v.tolist()] if batch else fs(v.item()), "consumed": len(taken),
                     "requires_grad": bool(v.requires_grad), "rand_shapes": asked,
+                    "samples_untouched": bool(torch.equal(pool, torch.stack(pts))),
                     "init_untouched": True if init is None else bool(torch.equal(init, keep))}
         out = run(False)
+        out["tables_untouched"] = self._kept_ok()
         out["aliased"] = self._alias_obs(case, logs)
         out["twin"] = run(True) if self._has_twin(case) else None
         return out
@@ -1367,6 +1519,19 @@ class C19(PropertyCheck):
     def _cmp_imh(self, case, impl, model):
         if not self._imh_margin_ok(case):
             return []
+        if case.get("is_log"):
+            # is_log=True is not part of the model; the model's list of recorded values func(b_t) is the
+            # oracle: the estimate is the log of the mean of their exponentials (any densities)
+            vs = impl["v"] if self._batch(case) else [impl["v"]]
+            ms = model["replies"] if self._batch(case) else [model]
+            out = []
+            for j, (v, m) in enumerate(zip(vs, ms)):
+                if m.get("recorded") is None:
+                    out.append("model: error")
+                elif not self._lclose(v, self._lme(m["recorded"])):
+                    out.append(f"imh(is_log=True) element {j}: impl={v} but the log-mean-exp of the recorded values "
+                               f"{m['recorded']} is {self._lme(m['recorded'])!r}")
+            return out
         vs = impl["v"] if self._batch(case) else [impl["v"]]
         ms = model["replies"] if self._batch(case) else [model]
         out = []
@@ -1374,7 +1539,14 @@ class C19(PropertyCheck):
             if m["v"] is None:
                 out.append("model: error")
             elif not close(v, m["v"]):
-                out.append(f"imh element {j}: impl={float(F(v))} model={float(F(m['v']))}")
+                rec = [float(F(x)) for x in (m.get("recorded") or [])]
+                out.append(f"imh element {j}: impl={float(F(v))} model={float(F(m['v']))} = mean of the recorded "
+                           f"values f(b_t) = {rec} (C19_imh_values)")
+            if m["v"] is not None and m.get("recorded") is not None:
+                # the model's own two readings of the call agree (C19_imh_values, re-checked on the driver)
+                rec = [F(x) for x in m["recorded"]]
+                if not rec or sum(rec) / len(rec) != F(m["v"]):
+                    out.append(f"imh element {j}: model estimate {m['v']} is not the mean of its recorded values {m['recorded']}")
         return out
 
     def _pred_imh(self, case, impl, model):
@@ -1383,6 +1555,7 @@ class C19(PropertyCheck):
         fails += self._pred_twin("IndependentMetropolisHastingsEstimator", case, impl["v"], tw and tw["v"])
         if impl["requires_grad"]:
             fails.append(("IMH estimate carries a gradient", None))
+        fails += self._pred_untouched("IndependentMetropolisHastingsEstimator", impl)
         if not impl["init_untouched"]:
             fails.append(("IMH wrote into the initial_sample tensor it was handed", None))
         batch = self._batch(case)
@@ -1402,6 +1575,15 @@ class C19(PropertyCheck):
                 vs = impl["v"]
             else:
                 exs, vs = [sum(F(ft[i]) for i in kept) / len(kept)], [impl["v"]]
+            if case.get("is_log"):
+                lexs = ([self._lme([ft[j][(i >> j) & 1] for i in kept]) for j in range(len(ft))] if batch
+                        else [self._lme([ft[i] for i in kept])])
+                for j, (v, ex) in enumerate(zip(vs, lexs)):
+                    if not self._lclose(v, ex):
+                        fails.append((f"IMH(is_log=True) with proposal = density, element {j}: {v} is not the log of "
+                                      f"the plain post-burn-in average {ex!r} of exp(func) over the kept proposals "
+                                      f"{kept}", None))
+                exs = []
             for j, (v, ex) in enumerate(zip(vs, exs)):
                 if not close(v, ex):
                     el = f" (element {j})" if batch else ""
@@ -2571,7 +2753,9 @@ class C19(PropertyCheck):
             cz, czc, fb = cv(z), cv(zc), func(b)
 
         def dual(x, n):
-            g, = torch.autograd.grad(x[n].sum(), [lg], retain_graph=True, allow_unused=True)
+            g = None
+            if x.requires_grad:       # (a control variate spelled with .detach() carries no gradient)
+                g, = torch.autograd.grad(x[n].sum(), [lg], retain_graph=True, allow_unused=True)
             return [fs(x[n].sum().item()), fs(0.0 if g is None else g.reshape(-1)[case.get("coord", 0)].item())]
         for n in range(case["N"]):
             samples.append({"f": [fs(fb[n].sum().item())], "cvz": dual(cz, n), "cvzcond": dual(czc, n),
@@ -2701,6 +2885,8 @@ class C19(PropertyCheck):
             t += [f"imh:{'same' if case['density'] == 'same' else 'other'}/"
                   f"{'supplied' if case['init'] is not None else 'drawn'}",
                   f"imh:kept={min(case['N'] - case['burn_in'], 4)}{'+' if case['N'] - case['burn_in'] >= 4 else ''}"]
+            if case.get("sample_owned"):
+                t += ["imh:proposal keeps its samples"]
             if case["init"] is not None and "init_lead" in case:
                 t += [f"imh:initial_sample shape={'(1,)+sample' if case['init_lead'] else 'sample'}"]
         elif k == "binom":
@@ -2761,6 +2947,10 @@ class C19(PropertyCheck):
                 al = (impl.get("aliased") or {}).get(key[0]) if isinstance(impl, dict) else None
                 t += [f"callback:{k}/{nm}={fn['how']}", f"callback:{nm} spelling={fn['how']}"
                       + ("" if al is None else "/shares-storage" if al else "/fresh")]
+        if case.get("f_kept"):
+            t += [f"callback:{k}/f=view of a table the integrand keeps"]
+        if case.get("is_log"):
+            t += [f"{k}:is_log=True"]
         if k in ("direct", "is", "imh", "enumerate"):
             if case.get("layout") == "batch":
                 t += [f"{k}:layout=batch/n={len(case['dist' if k in ('direct', 'enumerate') else 'proposal']['theta'])}"
@@ -2785,6 +2975,14 @@ class C19(PropertyCheck):
             yield dict({kk: v for kk, v in case.items() if kk != "cp"}, c=None, cv_mean_detached=False)
         if k == "imh" and case.get("init_lead"):
             yield dict(case, init_lead=False)
+        if case.get("is_log"):
+            yield dict(case, is_log=False)
+        if k in ("direct", "is", "imh") and case.get("sample_owned"):
+            yield dict(case, sample_owned=False)
+        if k == "imh" and self._batch(case) and len(case["proposal"]["theta"]) > 1:
+            for sub in self._imh_elem_cases(case):      # one element of the batch, still in batch layout
+                keep = {kk: case[kk] for kk in ("layout", "fp") if kk in case}
+                yield dict(sub, us=[[x] for x in sub["us"]], f=None if "fp" in keep else [sub["f"]], **keep)
         if k == "imh":
             if case["N"] > 1:
                 N = case["N"] - 1
